@@ -1535,3 +1535,74 @@ Proof.
   - clear E. induction ls as [|l ls IHl]; [reflexivity|]. cbn [map flat_map app]. f_equal. exact IHl.
   - destruct (negb (rfreq =? 0)%Z && (it mod rfreq =? 0)%Z); reflexivity.
 Qed.
+
+(* =================================================================================================
+   K. multicolumn grid files
+   ================================================================================================= *)
+Lemma NoDup_app' {A} (l1 l2 : list A) : NoDup l1 -> NoDup l2 -> (forall a, In a l1 -> In a l2 -> False) -> NoDup (l1 ++ l2).
+Proof.
+  induction l1 as [|a l1 IH]; intros H1 H2 Hd; [exact H2|]. cbn [app]. inversion H1 as [|? ? Ha Hl]; subst. constructor.
+  - intros Hin. apply in_app_or in Hin. destruct Hin as [Hin|Hin]; [contradiction|]. apply (Hd a); [left; reflexivity|exact Hin].
+  - apply IH; [exact Hl|exact H2|]. intros b Hb1 Hb2. apply (Hd b); [right; exact Hb1|exact Hb2].
+Qed.
+
+Section Multicol.
+  Context {T : Type} (O : NumOps T).
+
+  Lemma all_indices_length : forall nx, length (all_indices nx) = fold_right Nat.mul 1%nat nx.
+  Proof.
+    induction nx as [|n r IH]; [reflexivity|]. cbn [all_indices fold_right].
+    assert (H : forall k m, length (flat_map (fun i => map (cons i) (all_indices r)) (seq k m)) = (m * length (all_indices r))%nat).
+    { intros k m. revert k. induction m as [|m IHm]; intros k; [reflexivity|].
+      cbn [seq flat_map]. rewrite app_length, map_length, IHm. lia. }
+    rewrite H, IH. reflexivity.
+  Qed.
+
+  Lemma all_indices_shape : forall nx ix, In ix (all_indices nx) <-> Forall2 (fun i n => (i < n)%nat) ix nx.
+  Proof.
+    induction nx as [|n r IH]; intros ix; cbn [all_indices].
+    - split; [intros [<-|[]]; constructor|]. intros H. inversion H. left. reflexivity.
+    - rewrite in_flat_map. split.
+      + intros [i [Hi Hin]]. apply in_seq in Hi. apply in_map_iff in Hin. destruct Hin as [t [<- Ht]].
+        constructor; [lia|]. apply IH. exact Ht.
+      + intros H. inversion H as [|i n' t r' Hlt Hr]; subst. exists i. split; [apply in_seq; lia|].
+        apply in_map_iff. exists t. split; [reflexivity|]. apply IH. exact Hr.
+  Qed.
+
+  Lemma all_indices_nodup : forall nx, NoDup (all_indices nx).
+  Proof.
+    induction nx as [|n r IH]; cbn [all_indices]; [constructor; [intros []|constructor]|].
+    assert (H : forall k m, NoDup (flat_map (fun i => map (cons i) (all_indices r)) (seq k m)) /\
+                            forall ix, In ix (flat_map (fun i => map (cons i) (all_indices r)) (seq k m)) -> exists i t, ix = i :: t /\ (k <= i)%nat).
+    { intros k m. revert k. induction m as [|m IHm]; intros k; cbn [seq flat_map].
+      - split; [constructor|intros ix []].
+      - destruct (IHm (S k)) as [Hnd Hge]. split.
+        + apply NoDup_app'; [apply FinFun.Injective_map_NoDup; [intros a b Hab; inversion Hab; reflexivity|exact IH]|exact Hnd|].
+          intros ix Hin1 Hin2. apply in_map_iff in Hin1. destruct Hin1 as [t [<- _]].
+          destruct (Hge _ Hin2) as [i [t' [Heq Hle]]]. inversion Heq. lia.
+        + intros ix Hin. apply in_app_or in Hin. destruct Hin as [Hin|Hin].
+          * apply in_map_iff in Hin. destruct Hin as [t [<- _]]. exists k, t. split; [reflexivity|lia].
+          * destruct (Hge _ Hin) as [i [t [Heq Hle]]]. exists i, t. split; [exact Heq|lia]. }
+    apply H.
+  Qed.
+
+  (* reading what was written gives back, for every index in order, the record written for it *)
+  Lemma multicol_round_trip : forall nx geom value,
+    read_multicol nx (write_multicol O nx geom value) = map (fun ix => (ix, value ix)) (all_indices nx).
+  Proof.
+    intros nx geom value. unfold read_multicol, write_multicol.
+    assert (H : forall l, flat_map (fun l0 => match l0 with MData _ v => [v] | MBlank => [] end)
+                  (flat_map (fun ix => (if (last ix 1 =? 0)%nat then [MBlank] else []) ++ [MData (coords_of O geom ix) (value ix)]) l)
+                = map value l).
+    { induction l as [|ix l IH]; [reflexivity|]. cbn [flat_map map]. rewrite flat_map_app, IH.
+      destruct (last ix 1 =? 0)%nat; reflexivity. }
+    rewrite H. induction (all_indices nx) as [|ix l IH]; [reflexivity|]. cbn [map combine]. f_equal. exact IH.
+  Qed.
+
+  (* the lines, one index at a time: a blank line exactly before the records whose last index is 0; each record carries
+     the bin centres of its index *)
+  Lemma multicol_lines : forall nx geom value,
+    write_multicol O nx geom value =
+    flat_map (fun ix => (if (last ix 1 =? 0)%nat then [MBlank] else []) ++ [MData (coords_of O geom ix) (value ix)]) (all_indices nx).
+  Proof. reflexivity. Qed.
+End Multicol.
